@@ -10,3 +10,22 @@ package types
 //@   returns err
 //@   ensures valid: err == nil ==> paramsOK(p)
 //@ end
+
+// ---------------------------------------------------------------------------------------------
+// Genesis validation (C12): the recorded next sequence is above the sequence number of every exported pool, so that an
+// exported state (next sequence = highest sequence + 1) is accepted and a re-imported chain cannot reuse a pool number.
+//@ func ParseLptDenom
+//@   property C12
+//@   trusted
+//@   returns seq, err
+//@   ensures parsed: err == nil ==> seq == uf("lpt_seq", lptDenom) && seq >= 0
+//@ end
+//@ func ValidateGenesis
+//@   property C12
+//@   returns err
+//@   invariant #1 idx: rangeindex >= 0 - 1 && rangeindex < len(data.Pool)
+//@   invariant #1 max: maxSequence >= 0 && (forall j:Int :: 0 <= j && j <= rangeindex ==> uf("lpt_seq", data.Pool[j].LptDenom) <= maxSequence)
+//@                  && (rangeindex >= 0 ==> (exists j:Int :: 0 <= j && j <= rangeindex && uf("lpt_seq", data.Pool[j].LptDenom) == maxSequence)) && (rangeindex < 0 ==> maxSequence == 0)
+//@   ensures next_above: err == nil && data.Sequence > 0 ==> (forall j:Int :: 0 <= j && j < len(data.Pool) ==> uf("lpt_seq", data.Pool[j].LptDenom) < data.Sequence)
+//@   ensures next_tight: err == nil && data.Sequence > 0 && len(data.Pool) > 0 ==> (exists j:Int :: 0 <= j && j < len(data.Pool) && uf("lpt_seq", data.Pool[j].LptDenom) + 1 == data.Sequence)
+//@ end
